@@ -570,6 +570,7 @@ class StmtMixin:
         mode = self.choose(2, "loop%d" % idx)     # 0: arbitrary iteration, 1: exit
         it_snapshot = it.copy()
         self.havoc(names, objs, spec)
+        self.envs[-1]["_it%d" % idx] = it_snapshot       # ghost: the sequence being iterated (for clauses)
         i = self.fresh("int", iname)
         self.envs[-1][iname] = i
         self.pc.append(z3.And(i.t >= 0, i.t <= n))
